@@ -29,6 +29,7 @@ type RunCfg struct {
 	Covers    []string         `json:"required_covers,omitempty"`
 	Witness   int              `json:"witness_samples,omitempty"`
 	MaxWallS  int              `json:"max_wall_s,omitempty"`
+	CrossCheck int             `json:"cross_solver_sample,omitempty"`
 	FixedPath []int            `json:"-"`
 }
 
@@ -76,6 +77,7 @@ type RunResult struct {
 	FnSteps   map[string]int
 	Samples   []map[string]interface{}
 	classN    map[string]int
+	Cross     []crossQ
 	Wall      time.Duration
 	mu        sync.Mutex
 }
@@ -160,6 +162,7 @@ func explore(p *Program, cfg RunCfg) (*RunResult, error) {
 				}
 			}()
 			sol := newSolver()
+			sol.keep = cfg.CrossCheck > 0
 			defer sol.close()
 			ex := &Explorer{pool: pool}
 			fnSteps := map[*ssa.Function]int{}
@@ -173,6 +176,7 @@ func explore(p *Program, cfg RunCfg) (*RunResult, error) {
 					sol.reset()
 					it := newInterp(p, sol, ex, &cfg, fnSteps)
 					it.expired = &expired
+					it.res = res
 					why := runPath(it, fn)
 					if atomic.LoadInt32(&expired) == 1 {
 						res.mu.Lock()
